@@ -144,6 +144,7 @@ def shards(tier, seed):
     sh += [("codec", f) for f in ("vendor", "product_type", "product_code", "revision", "status", "rest")]
     sh += [("api", ep, full) for ep in ("list_identity", "discover", "module_info", "plc_info", "plc_info_micro800")]
     sh += [("pairwise", ep) for ep in ("parser", "module_info")]
+    sh += [("api", ep, False, "debuglog") for ep in ("list_identity", "discover", "module_info", "plc_info")]
     return sh
 
 
